@@ -276,7 +276,7 @@ def popTxnDeleted (σ : Sess) (o : Oid) : Sess :=
 
 /-- loop body of `_expunge_states` -/
 def expungeOne (σ : Sess) (o : Oid) : Sess :=
-  if σ.new.contains o then { σ with new := σ.new.erase o }
+  if σ.new.contains o then { σ with new := σ.new.filter (· != o) }   -- dict pop
   else if imContainsState σ o then
     let σ := imSafeDiscard σ o
     { σ with deleted := σ.deleted.erase o }
